@@ -78,10 +78,11 @@ NOT_RUNNABLE = [
     "stand-in for the unbuilt Cython distances) but their fit cannot run under scikit-learn 1.7 "
     "(constructor / parameter / before-fit cases only); ProximityForest/Tree/Stump and "
     "_CachedTransformer run fully with the stand-in distances",
-    "sklearn 1.7 forests have no base_estimator=: TimeSeriesForest*, RISE, STSF, RotationForest*, "
-    "ComposableTimeSeriesForest* (static only)",
+    "ComposableTimeSeriesForest* are abstract in 0.6.0; RotationForestClassifier's constructor calls "
+    "BaseEstimator.__init__ with arguments (TypeError); contrib RotationForest has no fitted flag "
+    "(static only). TimeSeriesForest*, RISE, STSF, BoxCoxTransformer, LogTransformer run through the "
+    "stand-ins of driver_init",
     "mrseql extension not built: ROCKETClassifier, HIVECOTEV1, Catch22ForestClassifier (static only)",
-    "scipy private import: BoxCoxTransformer, LogTransformer (static only)",
     "see FIT_NOT_RUNNABLE in props/c04.py for classes that construct but cannot be fitted here",
 ]
 
@@ -120,7 +121,9 @@ def driver_init():
     `sklearn.neighbors._base._check_weights` - the scikit-learn 0.24 function is restored verbatim;
     (3) the Cython extension `sktime.distances.elastic_cython` is not built - replaced by a module
     whose eight distance functions are a squared Euclidean distance on the common prefix (the VALUES
-    of distances are irrelevant to C04: parameters, clone, fitted state)."""
+    of distances are irrelevant to C04: parameters, clone, fitted state); (4) scikit-learn 1.7's
+    ForestClassifier / ForestRegressor constructors accept the old `base_estimator=` keyword (mapped
+    to `estimator=`); (5) scipy.stats.morestats gets back the two private helpers boxcox.py imports."""
     import math
     import sys
     import types
@@ -153,6 +156,35 @@ def driver_init():
         sys.modules["sktime.distances.elastic_cython"] = m
         import sktime.distances
         sktime.distances.elastic_cython = m
+    # (4) scikit-learn 1.7 forests take `estimator=`, sktime 0.6.0 passes `base_estimator=`
+    import functools
+    import sklearn.ensemble._forest as skf
+
+    def _accept_base_estimator(cls):
+        orig = cls.__init__
+        if getattr(orig, "_c04_wrapped", False):
+            return
+
+        @functools.wraps(orig)
+        def init(self, *args, base_estimator=None, **kwargs):
+            if base_estimator is not None:
+                kwargs["estimator"] = base_estimator
+            orig(self, *args, **kwargs)
+            if base_estimator is not None:
+                self.base_estimator = base_estimator
+        init._c04_wrapped = True
+        cls.__init__ = init
+    for c in (skf.ForestClassifier, skf.ForestRegressor):
+        _accept_base_estimator(c)
+    # (5) scipy moved two private helpers that boxcox.py imports from scipy.stats.morestats
+    import warnings
+    with warnings.catch_warnings():
+        warnings.simplefilter("ignore")
+        import scipy.stats._morestats as _pm
+        import scipy.stats.morestats as _dm
+        for name in ("_boxcox_conf_interval", "_calc_uniform_order_statistic_medians"):
+            if not hasattr(_dm, name) and hasattr(_pm, name):
+                setattr(_dm, name, getattr(_pm, name))
 
 
 def translate(repo):
@@ -503,6 +535,7 @@ def _data():
                                 for i in range(n)]})
     _DATA["X"] = X
     _DATA["yc"] = np.array(["a" if i % 2 == 0 else "b" for i in range(n)])
+    _DATA["yr"] = np.array([float(i % 3) + 0.5 * i for i in range(n)])
     return _DATA
 
 
@@ -594,6 +627,9 @@ def _required_args(name):
     if "MetricFunctionWrapper" in name:
         from sktime.performance_metrics.forecasting import mean_absolute_error
         return {"func": mean_absolute_error}
+    if name == "_CachedTransformer":
+        from sktime.transformations.panel.reduce import Tabularizer
+        return {"transformer": Tabularizer()}
     if name == "BaseTimeSeriesForest":
         from sklearn.tree import DecisionTreeClassifier
         return {"base_estimator": DecisionTreeClassifier()}
@@ -757,6 +793,11 @@ def _call_apply1(est, fam, method, variant):
                 f(d["X"], d["yc"])
             else:
                 f(d["X"])
+        elif fam == "regressor":
+            if method == "score":
+                f(d["X"], d["yr"])
+            else:
+                f(d["X"])
         else:
             return "absent"
         return "returned"
@@ -779,6 +820,8 @@ def _fit(est, fam):
         return est.fit(d["X"], d["yc"])
     if fam == "classifier":
         return est.fit(d["X"], d["yc"])
+    if fam == "regressor":
+        return est.fit(d["X"], d["yr"])
     raise RuntimeError("no fit recipe for family " + fam)
 
 
@@ -936,7 +979,7 @@ def _run_p_fit(case, cls):
     fam = _family(cls)
     if name in FIT_NOT_RUNNABLE:
         return {"skip": FIT_NOT_RUNNABLE[name]}
-    if fam in ("other", "regressor"):
+    if fam == "other":
         return {"skip": "no fit recipe for family " + fam}
     try:
         est, kw = _make(cls, name)
@@ -1575,9 +1618,11 @@ def distribution(cases, results):
 
 def extra_coverage(cases, results, tier):
     skipped = sorted(set(c["cls"] for c, r in zip(cases, results)
-                         if c["kind"] == "p_params" and "skip" in (r.get("out") or {})))
+                         if c["kind"] == "p_params" and c.get("aspect") == "get"
+                         and "skip" in (r.get("out") or {})))
     ran = sorted(set(c["cls"] for c, r in zip(cases, results)
-                     if c["kind"] == "p_params" and "skip" not in (r.get("out") or {})))
+                     if c["kind"] == "p_params" and c.get("aspect") == "get"
+                     and "skip" not in (r.get("out") or {})))
     fitted = sorted(set(c["cls"] for c, r in zip(cases, results)
                         if c["kind"] == "p_fit" and (r.get("out") or {}).get("fit") == "ok"))
     return {"classes_in_table": len(set(c["cls"] for c in cases if c["kind"] == "p_params")),
